@@ -602,6 +602,7 @@ def unit_iter_tokens(sess, ctx, active):
                       "_current_frame": n - 1})
             gh.update({"n": n, "f": f, "g": g, "reads": n, "eos_seen": False, "yielded_end": g.last_end,
                        "in_loop": True, "yields_this_iter": 0})
+            eng.havoc_loop_locals(s, fr)
             try:
                 eng.exec_block(s.body, fr)
             except Exception as ex:
@@ -779,6 +780,7 @@ def unit_tokenize(sess, ctx):
                    Int(fresh_name("Y.start")), Int(fresh_name("Y.end")))
             gh["cur_tok"] = tok
             gh["cb_calls"] = []
+            eng.havoc_loop_locals(s, fr)
             eng.assign(s.target, tok, fr)
             from pyvc.engine import _Break, _Continue
             try:
